@@ -119,6 +119,9 @@ def _run_spec(draw, observed=False):
 
 @st.composite
 def _case(draw, tier):
+    if draw(st.integers(0, 11)) == 0:
+        return {"kind": "sqlite", "seed": draw(st.integers(0, 2**31 - 1)), "n": draw(st.integers(60, 200)), "decoys": draw(st.booleans()),
+                "fmt": draw(st.sampled_from(["tsv", "parquet"]))}
     if draw(st.integers(0, 5)) == 0:
         return {"kind": "cli", "seed": draw(st.integers(0, 2**31 - 1)), "n_spectra": draw(st.integers(120, 200)),
                 "leftover": draw(st.sampled_from(["crash", "crash", "foreign-valid", "foreign-garbage", "older-version"])),
@@ -506,7 +509,53 @@ def _check_rollup(case):
             "counters": {"rollup_histories": 1}}
 
 
+def _check_sqlite(case):
+    """Results go to an SQLite database: the destination directory holds no result file at all, so after a successful
+    run it must be as empty as before (with or without decoy results)."""
+    import sqlite3
+
+    import mokapot
+
+    config_inject.install_pep_stub()
+    n = case["n"]
+    with scratch_dir() as tmp:
+        df, meta = datagen.psm_frame(case["seed"], [1] * n, key_arity=2, n_noise=1, with_rid=False)
+        df["SpecId"] = np.arange(len(df))
+        path = Path(tmp) / ("x.parquet" if case["fmt"] == "parquet" else "x.pin")
+        datagen.write_table(df, path)
+        db = Path(tmp) / "results.db"
+        con = sqlite3.connect(db)
+        con.execute("CREATE TABLE CANDIDATE (CANDIDATE_ID INTEGER NOT NULL, PSM_FDR REAL, SVM_SCORE REAL, POSTERIOR_ERROR_PROBABILITY REAL, "
+                    "PRIMARY KEY (CANDIDATE_ID));")
+        con.execute("CREATE TABLE PEPTIDE_VALIDATION (PEPTIDE_ID TEXT NOT NULL, FDR REAL, PEP REAL, SVM_SCORE REAL, PRIMARY KEY (PEPTIDE_ID));")
+        con.executemany("INSERT INTO CANDIDATE (CANDIDATE_ID) VALUES (?);", [(int(i),) for i in df["SpecId"]])
+        con.commit()
+        con.close()
+        dest = Path(tmp) / "dest"
+        dest.mkdir()
+        sc = df["f0"].values.astype(float) + np.arange(len(df)) * 1e-9
+        for rep in (1, 2):
+            guarded(mokapot.assign_confidence, [datagen.build_ondisk(path, df, meta)], max_workers=1, scores=[sc.copy()], descs=[True], eval_fdr=0.2,
+                    dest_dir=dest, prefixes=[None], decoys=case["decoys"], peps_algorithm="verif_stub", sqlite_path=db, sig="assign_confidence")
+            left = _listing(dest)
+            require(not left, "intermediate-left",
+                    f"results go to the SQLite database (decoys={case['decoys']}), yet run {rep} leaves {sorted(left)} in the destination directory")
+            con = sqlite3.connect(db)
+            upd = con.execute("SELECT count(*) FROM CANDIDATE WHERE PSM_FDR IS NOT NULL").fetchone()[0]
+            npep = con.execute("SELECT count(*) FROM PEPTIDE_VALIDATION").fetchone()[0]
+            con.execute("DELETE FROM PEPTIDE_VALIDATION")
+            con.execute("UPDATE CANDIDATE SET PSM_FDR = NULL")
+            con.commit()
+            con.close()
+            want = len(df) if case["decoys"] else int(np.sum(meta["is_target"]))
+            require(upd == want and npep > 0, "sqlite-rows", f"run {rep}: {upd} PSMs updated in the database, expected {want}; {npep} peptide rows")
+    return {"nontrivial": True, "classes": ["sqlite-output", "sqlite-with-decoys" if case["decoys"] else "sqlite-targets-only"],
+            "counters": {"sqlite_runs": 2}}
+
+
 def check(case):
+    if case.get("kind") == "sqlite":
+        return _check_sqlite(case)
     if case["kind"] == "cli":
         return _check_cli(case)
     if case["kind"] == "rollup":
